@@ -238,7 +238,8 @@ class Protocol:
             raise notify_msg
 
         if msg_id not in Message.CODE.MESSAGES:
-            raise Notify(1, 0, 'can not decode update message of type "%d"' % msg_id)
+            # RFC 4271 6.1: an unrecognised Type field is a Message Header Error, subcode Bad Message Type
+            raise Notify(1, 3, 'unknown message type "%d"' % msg_id)
 
         if not length:
             return _NOP
